@@ -39,7 +39,7 @@ LEVEL_TEXT = {
 }
 
 PROPS["C02"] = {
-    "targets": [rt("props/C02_lost_wakeup.cpp", 500, 70, 8000, 900)],
+    "targets": [rt("props/C02_lost_wakeup.cpp", 1500, 70, 20000, 900)],
     "rule": "case = scheduler config (1..8 workers, 8 policies, CPU restriction) with a MANDATORY perturbation plan at the hand-off sites "
             "(cv wait between unlock and suspend, do_yield, after the coroutine returned / store_state, set_thread_state before CAS / before "
             "schedule, set_active_state helper, notify, join, exit callbacks) x 1..6 ping-pong channels (facility in semaphore / cv+mutex / "
@@ -92,7 +92,7 @@ LEVEL_TEXT["C06"] = {
 }
 
 PROPS["C13"] = {
-    "targets": [rt("props/C13_thread.cpp", 500, 70, 8000, 900)],
+    "targets": [rt("props/C13_thread.cpp", 2500, 70, 30000, 900)],
     "rule": "case = scheduler config + perturbation plan at thread::join (between exit-callback registration and suspend), "
             "run_thread_exit_callbacks and the suspend/resume sites x 1..8 scenarios in {join, detach, self-join, interrupt, jthread}; "
             "thread bodies from {spin, yield, interruption_point, wait on event, disable_interruption scopes, spawn+join grandchild, sleep}; "
@@ -131,4 +131,22 @@ LEVEL_TEXT["C08"] = {
     "text": "The real semaphores run on harness-owned virtual threads: the schedule is part of the generated case, so each execution is deterministic, shrinkable and all-blocked states are detected exactly. Oracles: permit ledger at every success (acquisitions <= initial + released), drain equality at the end, exact deadlock detection under sufficient supply, and for timed acquires: false only if the scheduler fired that deadline (the harness owns the clock). Exploration of schedules by generated tapes.",
     "note": "Schedules are sampled from generated tapes (tens of thousands per run), not exhausted; interleavings are at hook/agent-operation granularity and sequentially consistent.",
     "technique": "property-based testing with harness-owned deterministic schedules (virtual threads), ledger and deadlock oracles",
+}
+
+PROPS["C09"] = {
+    "targets": [vt("props/C09_latch_barrier_vt.cpp", 8000, 60, 100000, 600)],
+    "rule": "case = primitive in {latch, barrier, event, call_once} x 2..4 logical threads x scripts (latch: count_down(k)*, then wait / "
+            "arrive_and_wait(k) / try_wait polling, sum of decrements == count; barrier: expected = threads+extra (thread 0 stands in for "
+            "1+extra via arrive(k)), 1..6 or 130 phases (uint8 phase wrap), per thread and phase arrive_and_wait / arrive+wait(token) / "
+            "arrive_and_drop, completion function instrumented; event: set/reset/set.. vs waiters; call_once: callers with the first j "
+            "attempts throwing) x schedule tape deciding every switch at hook points (latch notify loop, barrier ticket CAS) and agent "
+            "operations; non-trivial iff latch/event waiter really blocked, or barrier expected count is not a power of two with >=3 phases "
+            "or has a drop or crosses the phase wrap, or call_once has a throwing attempt with >=2 callers; distinct by hash of the case",
+    "floor": {"quick": 200, "thorough": 2000},
+    "assumptions": ["sequentially consistent interleavings at hook/agent granularity", "a participant waits for its arrival token before arriving again"],
+}
+LEVEL_TEXT["C09"] = {
+    "text": "The real latch, barrier, event and call_once run on harness-owned virtual threads under generated schedules; oracles are history invariants over harness-side sequence counters: no wait/arrive_and_wait returns before all decrements have at least started, per barrier phase every departure follows exactly one completion call which follows all expected arrivals (drops reduce the next phase's expectation), event waiters return only after a set started and all return, call_once body succeeds exactly once with exceptions reaching only their own caller; all-blocked states are exact deadlocks.",
+    "note": "Schedules sampled by generated tapes; SC interleavings at hook/agent granularity; barrier tree collisions depend on thread-id hashing, which is whatever the OS threads get.",
+    "technique": "property-based testing with harness-owned deterministic schedules (virtual threads), history-invariant oracles",
 }
